@@ -28,6 +28,9 @@ fn sp(xs: &[&[&str]]) -> Vec<Vec<Vec<u8>>> {
     xs.iter().map(|ps| ps.iter().map(|x| x.as_bytes().to_vec()).collect()).collect()
 }
 
+/// words next to characters of every UTF-8 length class, with no blank between (the word-boundary test of
+/// push conditions indexes the body by bytes: seed5 C17-2)
+const EV_MESSAGE_SCRIPTS: &str = r##"{"type":"m.room.message","event_id":"$1:example.org","room_id":"!r:example.org","sender":"@example:example.org","origin_server_ts":1,"content":{"msgtype":"m.text","body":"\u0e04\u0e38\u0e13jolly jumper\u0928\u092e \u0800example\u0fff \u07ffexample\u1000 \ud7ffjolly\ue000 \uffffexample\ud800\udc00 \u00e9example\u00e9"}}"##;
 const EV_MESSAGE: &str = r##"{"type":"m.room.message","event_id":"$143273582443PhrSn:example.org","room_id":"!jEsUZKDJdhlrceRyVU:example.org","sender":"@example:example.org","origin_server_ts":1432735824653,"unsigned":{"age":1234,"transaction_id":"txn1"},"content":{"msgtype":"m.text","body":"This is an *example* <b>text</b> message for Jolly Jumper","format":"org.matrix.custom.html","formatted_body":"<b>This is an example text message</b>","m.mentions":{"user_ids":["@jolly_jumper:server.name"],"room":true},"m.relates_to":{"m.in_reply_to":{"event_id":"$other:example.org"}}}}"##;
 const EV_MEMBER: &str = r##"{"type":"m.room.member","event_id":"$143273582443PhrSn:example.org","room_id":"!jEsUZKDJdhlrceRyVU:example.org","sender":"@example:example.org","origin_server_ts":1432735824653,"state_key":"@alice:example.org","unsigned":{"age":1234,"prev_content":{"membership":"invite"},"invite_room_state":[{"type":"m.room.name","sender":"@bob:example.org","state_key":"","content":{"name":"Example Room"}}]},"content":{"membership":"join","avatar_url":"mxc://example.org/SEsfnsuifSDFSSEF","displayname":"Alice Margatroid","is_direct":true,"join_authorised_via_users_server":"@bob:other.example.org","third_party_invite":{"display_name":"alice","signed":{"mxid":"@alice:example.org","token":"abc123","signatures":{"magic.forest":{"ed25519:3":"fQpGIW1Snz+pwLZu6sTy2aHy/DYWWTspTJRPyNp0PKkymfIsNffysMl6ObMMFdIJhk6g6pwlIqZ54rxo8SLmAg"}}}}}}"##;
 const EV_CREATE: &str = r##"{"type":"m.room.create","event_id":"$143273582443PhrSn:example.org","room_id":"!jEsUZKDJdhlrceRyVU:example.org","sender":"@example:example.org","origin_server_ts":1432735824653,"state_key":"","content":{"creator":"@example:example.org","m.federate":true,"room_version":"9","predecessor":{"event_id":"$something:example.org","room_id":"!oldroom:example.org"},"type":"m.space"}}"##;
@@ -208,6 +211,9 @@ fn entries() -> Vec<Entry> {
             &[r##"{"kind":"event_match","key":"content.body","pattern":"*ex?mple*"}"##, EV_MESSAGE, CTX],
             &[r##"{"kind":"event_match","key":"room_id","pattern":"!jEsU*"}"##, EV_MESSAGE, CTX],
             &[r##"{"kind":"contains_display_name"}"##, EV_MESSAGE, CTX],
+            &[r##"{"kind":"contains_display_name"}"##, EV_MESSAGE_SCRIPTS, CTX],
+            &[r##"{"kind":"event_match","key":"content.body","pattern":"example"}"##, EV_MESSAGE_SCRIPTS, CTX],
+            &[r##"{"kind":"event_match","key":"content.body","pattern":"jolly"}"##, EV_MESSAGE_SCRIPTS, CTX],
             &[r##"{"kind":"room_member_count","is":"==3"}"##, EV_MESSAGE, CTX],
             &[r##"{"kind":"sender_notification_permission","key":"room"}"##, EV_MESSAGE, CTX],
             &[r##"{"kind":"event_property_contains","key":"content.m\\.mentions.user_ids","value":"@jolly_jumper:server.name"}"##, EV_MESSAGE, CTX],
